@@ -403,4 +403,29 @@ def check_C16(pid, tier, seed, verdict):
                  "absence of a reply is judged when the listener closes the connection (positive signal) or after 1-3 s"]
 
 
-CHECKS = {"C16": check_C16, "C07": check_C07, "C12": check_C12, "C13": check_C13, "C10": check_C10, "C14": check_C14, "C09": check_C09, "C11": check_C11, "C01": check_C01, "C02": check_C02, "C03": check_C03, "C04": check_C04, "C05": check_C05}
+# ------------------------------------------------------------------------------------------- C17
+def check_C17(pid, tier, seed, verdict):
+    g = V.run_gen(pid, "MC_HttpProxy.tla", "MC_HttpProxy.cfg", workers=1)
+    mcs = [g]
+    sp = os.path.join(V.workdir(pid), "gen.scn")
+    V.write_scenarios(sp, g["scenarios"])
+    run = V.run_harness(pid, "http", seed, tier, sp)
+    res = V.run_trace(pid, "Trace_HttpProxy.tla", "Trace_HttpProxy.cfg", run["trace"])
+    verdict.add_trace_result("http", res, run)
+    cnt = res["cnt"]
+    V.log(f"[{pid}] trace: {cnt['http']} connections judged ({len(g['scenarios'])} abstract cases), bad={len(res['bad'])}")
+    cov = _cov(mcs, cnt["scn"], cnt["nontrivial"],
+               "scenario = one TCP connection to the real HTTP proxy listener built from one case of the abstract alphabet of "
+               "HttpProxy.tla (CONNECT / other methods x target form authority/absolute-http/absolute-https/origin x explicit or "
+               "default port x Host header absent/same/other x spelling Host/host/HOST x 0 or 2 other header lines x early bytes "
+               "behind the header x segmentation whole/split/early-bytes-separate x host spelled as name/IPv4/[IPv6] x authority "
+               "reachable or not): ALL 562 relevant cases are enumerated by TLC and each is run with random concrete method, path, "
+               "version and header position (thorough: three times); the origin is a recording listener on a per-case loopback "
+               "address; non-trivial = connections whose observation was judged by Accept", V.sample_descrs(run["descr"]),
+               True, dict(behaviours_generated=len(g["scenarios"]), trace_events=res["lines"], event_counts=cnt, exhaustive_cases=True))
+    return cov, ["'well-formed' is read narrowly (RFC 7230 request line and header syntax); header blocks near the 64 KiB cap and "
+                 "chunked bodies are not generated", "header text is tokenised by the harness (request line split at spaces, header "
+                 "lines at CRLF); the comparison itself is made by HttpProxy!Accept"]
+
+
+CHECKS = {"C17": check_C17, "C16": check_C16, "C07": check_C07, "C12": check_C12, "C13": check_C13, "C10": check_C10, "C14": check_C14, "C09": check_C09, "C11": check_C11, "C01": check_C01, "C02": check_C02, "C03": check_C03, "C04": check_C04, "C05": check_C05}
